@@ -49,8 +49,10 @@ PLAN = {
     'edit-thorough': [('full', 3), ('core', 4), ('twin', 4)],
     'search-quick': [('full', 2), ('core', 3), ('search', 4)],
     'search-thorough': [('full', 3), ('core', 4), ('search', 5)],
-    'nav-quick': [('full', 2), ('core', 4)],
-    'nav-thorough': [('full', 3), ('core', 5)],
+    'nav-quick': [('full', 2), ('core', 4), ('search', 3)],
+    'nav-thorough': [('full', 3), ('core', 5), ('search', 4)],
+    'fault-quick': [('full', 2), ('core', 2)],
+    'fault-thorough': [('full', 2), ('core', 3)],
     'small-quick': [('full', 2), ('core', 3)],
     'small-thorough': [('full', 3), ('core', 4)],
 }
@@ -62,7 +64,7 @@ def shards(plan, extra=()):
     out = []
     for name, nmax in PLAN[plan]:
         for n in range(1, nmax + 1):
-            k = 1 if n <= 2 else (16 if n == 3 else NSHARDS)
+            k = (1 if n <= 1 else 16) if n <= 3 else NSHARDS
             if n >= 5 or (name == 'full' and n >= 4):
                 k = 256
             for i in range(k):
